@@ -33,7 +33,11 @@ MANIFEST = {
             "as a minimum over all vertex-segment pairs, Rect/Triangle through to_polygon (with the operand order the macros produce), the Multi*/"
             "collection/Geometry dispatch as the list of single-part calls it folds min over. Proved: psd2 is the exact minimum of |p - x|^2 over the "
             "segment and is attained; it is 0 exactly for points of the segment; Line x Line is 0 exactly when the segments share a point and is "
-            "symmetric; all kernels are non-negative; min-fold lemmas lift these through the dispatch. Each run compares the real code with the model "
+            "symmetric; LineString x LineString is symmetric (its nested bounding-box rejections are sound); nearest_neighbour_distance is the "
+            "minimum over all vertex-segment pairs in both directions; all kernels are non-negative and panic-free on non-empty operands; the "
+            "dispatch recursion is fuel-independent and equals the min folds of the macros, which lifts zero/minimum through Multi*/collections; "
+            "Rect/Triangle/singleton Multi*/collection-of-one wrappers reduce to the wrapped operand. Polygon x Polygon symmetry and the "
+            "Point x LineString zero-iff are _partial (validity; finding K4). Each run compares the real code with the model "
             "(zero <=> zero exactly, else 16 ulp relative on the square) and, independently, with a brute-force exact minimum over all part pairs "
             "combined with the DE-9IM specification for 'intersects (including containment)', and demands bit-identical results for exchanged "
             "operands, a second representation and enum-vs-concrete impls.",
